@@ -666,9 +666,8 @@ class Garbler:
     def depth_case(self, xml_text):
         r = self.r
         kind = r.choice(['nest-composite', 'nest-group', 'nest-unknown', 'nest-types'])
-        # depths between ~100 and the stack limit are minutes of (polynomial) work and gigabytes of
-        # output, not a hang: 300 nested groups (a 31 KB schema) give 151 MB of headers in 59 s
-        n = r.choice([10, 60, 5000, 20000, 100000] if kind == 'nest-group' else [10, 100, 300, 5000, 20000, 100000])
+        # schema_parser refuses more than 64 levels of composites / groups
+        n = r.choice([10, 60, 64, 65, 300, 5000, 20000, 100000, 500000])
         if kind == 'nest-composite':
             inner = '<type name="leaf" primitiveType="uint8"/>'
             opn = ''.join('<composite name="c%d">' % i for i in range(n))
